@@ -145,6 +145,10 @@ func analyse(sc Scenario, out *outcome, drv *lib.Driver) *caseResult {
 	if out.hang != "" {
 		viol("synchronizer-hangs", out.hang)
 	}
+	if out.afterReturn != "" {
+		viol("synchroniser-still-working-after-Run-returned", "after Run returned (context cancelled) the synchroniser still did: "+out.afterReturn+
+			" — Run must wait for its fetchers and verifiers, the caller closes the database next")
+	}
 	if out.persisted["persisted:stored-tampered"] > 0 {
 		viol("tampered-block-reported-as-persisted", "a block served with a changed committed field (hash kept) came back with Persisted <- nil: it passed verifierTask and Store")
 	}
